@@ -41,6 +41,7 @@ type State struct {
 	epoch    int
 	iters    map[ssa.Value]string // map-range iterator -> seen set
 	defers   []*ssa.Defer
+	fcells   map[*ssa.FreeVar]string // captured variables of a function literal (cells of the enclosing function)
 }
 
 func (s *State) clone() *State {
@@ -56,6 +57,12 @@ func (s *State) clone() *State {
 	for k, v := range s.iters {
 		n.iters[k] = v
 	}
+	if s.fcells != nil {
+		n.fcells = make(map[*ssa.FreeVar]string, len(s.fcells))
+		for k, v := range s.fcells {
+			n.fcells[k] = v
+		}
+	}
 	n.defers = append([]*ssa.Defer(nil), s.defers...)
 	return n
 }
@@ -70,6 +77,7 @@ type Addr struct {
 	Idx  string // element index
 	Typ  types.Type
 	Sub  bool // storage embedded in another object (never nil by itself)
+	FV   *ssa.FreeVar
 }
 
 type rangeInfo struct {
@@ -121,6 +129,7 @@ type VC struct {
 	compType   map[string]types.Type // component -> Go type of the stored value
 	epochTop   map[int]string        // epoch -> allocTop when it started
 	siteHits   map[*SiteSpec]int
+	faOrd      map[*ssa.FieldAddr]int
 	srcOrd     map[*ssa.CallCommon]int // ordinal of a static call among the calls of the same callee, in source order
 	defined    map[string]bool // names introduced by define-fun (macros, not constants)
 	patAlias   map[string]string
@@ -699,6 +708,18 @@ func (vc *VC) merge(edges []inEdge, hint string) *State {
 				ks = vc.sortOf(ri.mapType.Key())
 			}
 			out.iters[it] = pick("(Array "+ks+" Bool)", func(s *State) string { return s.iters[it] })
+		}
+	}
+	if edges[0].st.fcells != nil {
+		out.fcells = map[*ssa.FreeVar]string{}
+		var fvs []*ssa.FreeVar
+		for fv := range edges[0].st.fcells {
+			fvs = append(fvs, fv)
+		}
+		sort.Slice(fvs, func(i, j int) bool { return fvs[i].Name() < fvs[j].Name() })
+		for _, fv := range fvs {
+			fv := fv
+			out.fcells[fv] = pick(vc.sortOf(fv.Type().(*types.Pointer).Elem()), func(s *State) string { return s.fcells[fv] })
 		}
 	}
 	// defers: keep those of the first edge (unconditional defers are the supported case)
